@@ -187,7 +187,7 @@ escape(struct scanner *s)
 			if (isodigit(s->chr))
 				nextchar(s);
 		}
-	} else if (strchr("'\"?\\abfnrtv", s->chr)) {
+	} else if (s->chr && strchr("'\"?\\abfnrtv", s->chr)) {
 		nextchar(s);
 	} else {
 		error(&s->loc, "invalid escape sequence");
